@@ -508,7 +508,10 @@ impl<'s> Rw<'s> {
                 if *n == an.occurrence {
                     let ins = format!("{}\n", an.text);
                     if an.after {
-                        let txt = format!("\n{}", an.text);
+                        // a tail expression of unit type becomes a statement so that text can follow it
+                        let tt = text.trim_end();
+                        let sep = if tt.ends_with(';') || tt.ends_with('}') { "" } else { ";" };
+                        let txt = format!("{}\n{}", sep, an.text);
                         self.edit(end, end, &txt, "INJ", &format!("after `{}`", an.pattern));
                     } else {
                         self.edit(start, start, &ins, "INJ", &format!("before `{}`", an.pattern));
@@ -611,6 +614,10 @@ impl<'s> Visit<'s> for Rw<'s> {
     }
 
     fn visit_expr(&mut self, e: &'s syn::Expr) {
+        // closure-site directive at expression level (e.g. an adapter chain inside a struct literal)
+        if !matches!(e, syn::Expr::Closure(_) | syn::Expr::Async(_)) && self.try_closure_site(e.span()) {
+            return;
+        }
         match e {
             syn::Expr::Await(aw) => {
                 let (a, _) = br(aw.dot_token.span());
@@ -1403,7 +1410,9 @@ fn emit_item(unit: &Unit, src: &SrcFile, it: &ItemSpec) -> R<Emitted> {
     let Some(item) = find(&src.ast.items, &it.name) else {
         refuse!("anchor lost: item `{}` not found in {}", it.name, src.rel);
     };
-    let fdummy: &FnSpec = Box::leak(Box::new(FnSpec::default()));
+    let mut fd = FnSpec::default();
+    fd.subst = it.subst.clone();
+    let fdummy: &FnSpec = Box::leak(Box::new(fd));
     let empty: &BTreeSet<String> = Box::leak(Box::new(BTreeSet::new()));
     let mut rw = Rw {
         src,
